@@ -13,8 +13,10 @@ use std::collections::BTreeMap;
 use std::fmt::Write as _;
 
 const ACC_ALIAS: [[&str; 2]; 6] =
-    [["Bank", "BK"], ["Cash", "Wallet"], ["Opening", "EQ"], ["Food", "Groceries"], ["Job", "Salary"], ["Card", "Visa"]];
-const COM_ALIAS: [[&str; 2]; 5] = [["Apple", "APL"], ["Franc", "SFr"], ["Euro", "EU"], ["Yen", "JP"], ["US", "Dollar"]];
+    [["Bank", "BK"], ["Cash", "Wal|let"], ["Opening", "E*Q"], ["Food", "Groceries 100%"], ["Job", "Salary"], ["Card", "Card #2"]];
+// aliases also use characters that are comment prefixes elsewhere (# % | *), which are ordinary
+// characters inside names
+const COM_ALIAS: [[&str; 2]; 5] = [["Apple", "APL"], ["Franc", "S#r"], ["Euro", "E%U"], ["Yen", "JP"], ["US", "Dollar"]];
 
 /// every written name of a namespace, byte-sorted: id = index (so id order = name order)
 fn namespace(canon: &[&str], aliases: &[[&str; 2]]) -> Vec<String> {
